@@ -44,6 +44,8 @@ def build_program(name, t, traits, entry, desc, sig, pid=PID):
         if multi or effective(t, "PartialEq"):
             body.append('    cover!(!r_eq, "eq-false");')
         body.append('    assert!((x == y) == r_eq, "eq");')
+        # the very same object on both sides: a field that is not equal to itself keeps the value unequal to itself
+        body.append('    assert!((x == x) == ref_eq(&x, &x), "eq-same-object");')
         body.append('    assert!((x != y) == !r_eq, "ne");')
     if "PartialOrd" in traits:
         body.append("    let r_pc = ref_pcmp(&x, &y);")
@@ -52,6 +54,7 @@ def build_program(name, t, traits, entry, desc, sig, pid=PID):
             body.append('    cover!(r_pc == Some(Ordering::Less), "pcmp-less");')
             body.append('    cover!(r_pc == Some(Ordering::Greater), "pcmp-greater");')
         body.append('    assert!(x.partial_cmp(&y) == r_pc, "partial_cmp");')
+        body.append('    assert!(x.partial_cmp(&x) == ref_pcmp(&x, &x), "partial_cmp-same-object");')
     if "Ord" in traits:
         body.append("    let r_c = ref_cmp(&x, &y);")
         body.append('    cover!(r_c == Ordering::Equal, "cmp-equal");')
@@ -75,9 +78,9 @@ def all_candidates():
     single = [(a, o) for a in ["ord", "partial_ord", "eq", "partial_eq"] for o in gen_cmp.attr_options(a)]
     out = []
     # no attributes: every shape (incl. unit-like ones), every subset, both entries
-    for sh in shapes + ["s_unit", "e_units3", "s_po", "e_data_unit", "e_disc3", "e_disc_data"]:
+    for sh in shapes + ["s_unit", "e_units3", "s_po", "s_nr", "e_nr", "e_data_unit", "e_disc3", "e_disc_data"]:
         for ts in subsets:
-            if sh == "s_po" and ({"Eq", "Ord"} & set(ts)):
+            if sh in ("s_po", "s_nr", "e_nr") and ({"Eq", "Ord"} & set(ts)):
                 continue
             for en in ("attr", "derive"):
                 out.append((sh, [], ts, en))
@@ -118,6 +121,9 @@ def core_candidates():
         out.append((sh, [], all4, "attr"))
         out.append((sh, [], ["PartialEq", "PartialOrd"], "derive"))
     out.append(("s_po", [], ["PartialOrd", "PartialEq"], "attr"))
+    for sh in ("s_nr", "e_nr"):
+        out.append((sh, [], ["PartialOrd", "PartialEq"], "attr"))
+        out.append((sh, [], ["PartialEq"], "derive"))
     single = [(a, o) for a in ["ord", "partial_ord", "eq", "partial_eq"] for o in gen_cmp.attr_options(a)]
     for sh, idx in (("s_named3", 1), ("e_mixed", 2), ("s_named3", 0)):
         for (a, o) in single:
